@@ -15,14 +15,16 @@ import progcases as pc  # noqa: E402
 
 PID = "C17"
 TARGETS = ["Properties/C17.vo"]
-MODEL_TARGETS = ["Model/Lexer.vo", "Model/Ifdef.vo", "Model/Preproc.vo", "Model/EncOp.vo"]
+MODEL_TARGETS = ["Model/Lexer.vo", "Model/Ifdef.vo", "Model/Preproc.vo", "Model/EncOp.vo", "Model/Caret.vo"]
 ASSUMPTIONS = [
     "PARTIAL: the theorems give the location recorded in every token (Model/Lexer.v), the preservation of line "
     "numbers by conditional compilation (Model/Ifdef.v) and what the type checker attaches each diagnostic to "
     "(Model/Preproc.v: an operand fault to that operand's token, a wrong operand count to the operation); parser "
     "diagnostics, the quoted line, the caret, include attribution and run-time warnings are decided by the "
-    "planted-fault oracle",
-    "ASCII texts; a tab counts as one column (align_caret reproduces tabs when printing)",
+    "planted-fault oracle; the caret's display column is a theorem on Model/Caret.v (align_caret and a layout "
+    "function compared with the real align_caret and with str.expandtabs; every character other than a tab is taken "
+    "to be one column wide)",
+    "ASCII texts; a tab counts as one column in reported columns (align_caret reproduces tabs when printing)",
 ]
 TRUSTED = ["coq/Model/Lexer.v", "coq/Model/Ifdef.v"]
 
@@ -114,7 +116,34 @@ def correspondence(ctx, model_available=True):
                 attach_dis.append({"what": "checker diagnostics (text, attachment) vs Model/Preproc", "program": text, "settings": cfg,
                                    "impl": [r["errors"], r["error_locs"], r["warnings"], r["warning_locs"]],
                                    "model": [m["errors"], m["error_locs"], m["warnings"], m["warning_locs"]]})
-    st = {"planted": 0, "by_fault": {}, "included": 0, "runtime": 0, "attachment": att}
+    # the caret line: real align_caret vs Model/Caret.v, and the layout function of the theorem vs str.expandtabs
+    caret = {"lines": 0, "agree": 0}
+    if model_available:
+        from hera.utils import align_caret
+        chars = ["\t", "\t", " ", " ", "a", "S", "(", ",", "1", "/", "*", "\x0b", "~"]
+        ccases = []
+        for _ in range(200 if quick else 3000):
+            line = "".join(rng.choice(chars) for _ in range(rng.choice([0, 1, 3, 8, 20, 40])))
+            col = rng.choice([1, 1, 2, len(line), len(line) + 1, rng.randrange(1, len(line) + 2)])
+            w = rng.choice([1, 2, 3, 4, 8])
+            at = rng.choice([0, 2, 2, 5])
+            ccases.append((line, max(1, col), w, at))
+        zl = lambda t: "[%s]" % "; ".join(str(ord(c)) for c in t)
+        header = "From Coq Require Import ZArith List.\nFrom Hera.Model Require Import Caret.\nImport ListNotations.\nOpen Scope Z_scope.\n"
+        outs = coqrun.eval_cases("C17c", header, ["(layout %d %d %s) :: (layout %d %d (align_caret %s %d)) :: align_caret %s %d"
+                                                  % (w, at, zl(line), w, at, zl(line), col, zl(line), col)
+                                                  for line, col, w, at in ccases], shard=500)
+        for (line, col, w, at), o in zip(ccases, outs):
+            caret["lines"] += 1
+            real = align_caret(line, col)
+            want_layout = len((" " * at + line).expandtabs(w))
+            want_caret_layout = len((" " * at + real).expandtabs(w))
+            if o[2:] == [ord(c) for c in real] and o[0] == want_layout and o[1] == want_caret_layout:
+                caret["agree"] += 1
+            else:
+                attach_dis.append({"what": "align_caret / display layout vs Model/Caret", "line": line, "col": col, "tab": w, "at": at,
+                                   "impl": [want_layout, want_caret_layout, [ord(c) for c in real]], "model": o})
+    st = {"planted": 0, "by_fault": {}, "included": 0, "runtime": 0, "attachment": att, "caret": caret}
     for _ in range(300 if quick else 5000):
         f = fc.planted_fault(rng)
         st["planted"] += 1
